@@ -541,4 +541,94 @@ theorem mxpCrtOp_spec (w : Nat) (a dp dq p q : Int) (hp : 1 < p) (hpo : p % 2 = 
   rw [hx, Option.bind_some]
   exact mxpCrt_spec w a dp dq p q dp dq x hp hpo hq hqo hdp hdq hx2
 
+/-! ### bn_mxp_crt, sqr = 1 (Paillier-type decryption halves) -/
+
+/-- L(x) = (x − 1)/p with floor division, times dp, mod p — what the sqr branch computes from a^b mod p² -/
+def crtHalf (a b p dp : Int) : Int := (((a ^ b.toNat % (p * p) - 1) / p) * dp) % p
+
+theorem mxpCrt_sqr_spec (w : Nat) (a b c p q dp dq qi : Int) (hp : 1 < p) (hpo : p % 2 = 1) (hq : 1 < q) (hqo : q % 2 = 1)
+    (hb : 0 ≤ b) (hc : 0 ≤ c) (hqi : qi * q ≡ 1 [ZMOD p]) :
+    ∃ r, mxpCrt w a b c p q dp dq qi true = some r ∧ 0 ≤ r ∧ r < p * q ∧
+      r ≡ crtHalf a b p dp [ZMOD p] ∧ r ≡ crtHalf a c q dq [ZMOD q] ∧ r % q = crtHalf a c q dq := by
+  have hpp : 1 < p * p := by nlinarith
+  have hqq : 1 < q * q := by nlinarith
+  have hppo : (p * p) % 2 = 1 := by rw [Int.mul_emod, hpo]; rfl
+  have hqqo : (q * q) % 2 = 1 := by rw [Int.mul_emod, hqo]; rfl
+  unfold mxpCrt
+  simp only [Bool.not_true, Bool.false_eq_true, if_false, mxpSlide_nonneg w a b (p * p) hpp hppo hb,
+    mxpSlide_nonneg w a c (q * q) hqq hqqo hc, Option.bind_some]
+  have hu0 : 0 ≤ crtHalf a c q dq := Int.emod_nonneg _ (by omega)
+  have hu1 : crtHalf a c q dq < q := Int.emod_lt_of_pos _ (by omega)
+  obtain ⟨r0, r1, r2, r3⟩ := crtTail_spec p q qi (crtHalf a b p dp) (crtHalf a c q dq) (by omega) (by omega) hqi hu0 hu1
+  refine ⟨_, rfl, r0, r1, r2, r3, ?_⟩
+  have := r3
+  unfold Int.ModEq at this
+  rwa [Int.emod_eq_of_lt hu0 hu1] at this
+
+/-! ### bn_mxp_sim -/
+
+theorem shr_ge (b i : Nat) (h : Rec.bitLen b ≤ i) : b >>> i = 0 := by
+  rw [Nat.shiftRight_eq_div_pow]
+  apply Nat.div_eq_of_lt
+  exact lt_of_lt_of_le (Rec.lt_two_pow_bitLen b) (Nat.pow_le_pow_right (by omega) h)
+
+theorem bit_ne_zero {b i : Nat} (h : bit b i = true) : b ≠ 0 := by
+  rintro rfl
+  simp [bit] at h
+
+theorem simLoop_spec {M : Mont} (g : Good M) (a d t1 t2 t3 : Int) (b e : Nat)
+    (h1 : b ≠ 0 → Rep M t1 a) (h2 : e ≠ 0 → Rep M t2 d) (h3 : b ≠ 0 → e ≠ 0 → Rep M t3 (d * a)) :
+    ∀ (i : Nat) (c : Int), Rep M c (a ^ (b >>> i) * d ^ (e >>> i)) → Rep M (simLoop M t1 t2 t3 b e i c) (a ^ b * d ^ e) := by
+  intro i
+  induction i with
+  | zero => intro c hc; simpa [simLoop] using hc
+  | succ i ih =>
+    intro c hc
+    simp only [simLoop]
+    apply ih
+    have hs := rep_sqr g hc
+    set kb := b >>> (i + 1)
+    set ke := e >>> (i + 1)
+    by_cases hb : bit b i = true <;> by_cases he : bit e i = true
+    · rw [if_pos hb, if_pos he, bit_true hb, bit_true he]
+      have := rep_mul g hs (h3 (bit_ne_zero hb) (bit_ne_zero he))
+      have e' : a ^ (2 * kb + 1) * d ^ (2 * ke + 1) = a ^ kb * d ^ ke * (a ^ kb * d ^ ke) * (d * a) := by ring
+      rw [e']; exact this
+    · rw [if_pos hb, if_neg he, bit_true hb, bit_false he]
+      have := rep_mul g hs (h1 (bit_ne_zero hb))
+      have e' : a ^ (2 * kb + 1) * d ^ (2 * ke) = a ^ kb * d ^ ke * (a ^ kb * d ^ ke) * a := by ring
+      rw [e']; exact this
+    · rw [if_neg hb, if_pos he, bit_false hb, bit_true he]
+      have := rep_mul g hs (h2 (bit_ne_zero he))
+      have e' : a ^ (2 * kb) * d ^ (2 * ke + 1) = a ^ kb * d ^ ke * (a ^ kb * d ^ ke) * d := by ring
+      rw [e']; exact this
+    · rw [if_neg hb, if_neg he, bit_false hb, bit_false he]
+      have e' : a ^ (2 * kb) * d ^ (2 * ke) = a ^ kb * d ^ ke * (a ^ kb * d ^ ke) := by ring
+      rw [e']; exact hs
+
+/-- the full behaviour of bn_mxp_sim on all integers: the signs of the exponents are ignored -/
+def SimSpec (a b d e m : Int) (r : Option Int) : Prop :=
+  if m = 1 then r = some 0
+  else if m % 2 = 0 ∨ m ≤ 0 then r = none
+  else r = some (a ^ b.natAbs * d ^ e.natAbs % m)
+
+theorem mxpSim_spec (w : Nat) (a b d e m : Int) : SimSpec a b d e m (mxpSim w a b d e m) := by
+  unfold SimSpec mxpSim
+  by_cases h1 : m = 1
+  · simp [h1]
+  by_cases h3 : m % 2 = 0 ∨ m ≤ 0
+  · simp [h1, h3]
+  simp only [if_neg h1, if_neg h3, Option.some.injEq]
+  obtain ⟨g, hmm⟩ := ofMod_good w m (by omega) (by omega)
+  set M := Mont.ofMod w m with hM
+  have hl := simLoop_spec g a d (simTab M a d b.natAbs e.natAbs).2.1 (simTab M a d b.natAbs e.natAbs).2.2.1
+    (simTab M a d b.natAbs e.natAbs).2.2.2 b.natAbs e.natAbs
+    (fun hb => by simp only [simTab, if_pos hb]; exact rep_conv M a)
+    (fun he => by simp only [simTab, if_pos he]; exact rep_conv M d)
+    (fun hb he => by simp only [simTab, if_pos hb, if_pos he]; exact rep_mul g (rep_conv M d) (rep_conv M a))
+    (max (Rec.bitLen b.natAbs) (Rec.bitLen e.natAbs)) (simTab M a d b.natAbs e.natAbs).1
+    (by rw [shr_ge _ _ (le_max_left _ _), shr_ge _ _ (le_max_right _ _)]; simpa [simTab] using rep_conv M 1)
+  have := back_eq g hl
+  rw [this, hM, hmm]
+
 end Relic.Model.NtMxp
